@@ -4577,7 +4577,7 @@ class Equilibrium:
         else:
             if 0.5 * numpy.abs(grad_lower + grad_upper) * n < numpy.abs(
                 upper - lower
-            ) * (1.0 + 1.0e-8):
+            ) * (1.0 + 1.0e-3):
                 # If a linearly varying grid spacing between grad_lower and grad_upper
                 # would give a smaller change than (upper-lower) then we need an
                 # increased average grid spacing.
@@ -4585,6 +4585,11 @@ class Equilibrium:
                 # gets very close to constant spacing, the constraint will be hard to
                 # solve, while this form should be a good spacing function for
                 # nearly-constant spacing.
+                # (The closed form used in the other branch loses accuracy quickly as
+                # its parameter b becomes large: within 1e-3 of the switch the end values
+                # were wrong by up to 5e-5*(upper-lower), and the root can lie outside
+                # the bracket passed to brentq. The form below stays monotonic as long as
+                # the tolerance is well below 1/4.)
                 #
                 # Start with a smoothly varying function between grad_lower and
                 # grad_upper, then add a positive function with zero value and gradient
